@@ -306,6 +306,12 @@ func errorResultIndex(f *ssa.Function) int {
 // predecessors backwards; a path that reaches the block defining anchor (or the
 // entry) without such an edge is a counterexample.
 func onAllPaths(g *ssax.Graph, at ssa.Instruction, anchor ssa.Value, match func(ssax.Fact) bool) bool {
+	return onAllPathsVia(g, at, anchor, match, nil)
+}
+
+// onAllPathsVia additionally accepts a path once it runs through a block for
+// which via is true (e.g. the block holding a publishing store).
+func onAllPathsVia(g *ssax.Graph, at ssa.Instruction, anchor ssa.Value, match func(ssax.Fact) bool, via func(b int) bool) bool {
 	var anchorBlock = -1
 	if i, ok := anchor.(ssa.Instruction); ok && i.Block() != nil {
 		anchorBlock = i.Block().Index
@@ -333,6 +339,9 @@ func onAllPaths(g *ssax.Graph, at ssa.Instruction, anchor ssa.Value, match func(
 				}
 			}
 			if found {
+				continue
+			}
+			if via != nil && via(p) {
 				continue
 			}
 			if p == anchorBlock {
